@@ -18,6 +18,8 @@ use crate::sched::stamp;
 
 // ---------------------------------------------------------------------------------- payload
 
+// over-aligned on purpose: the vector computes the entry layout itself
+#[repr(align(16))]
 pub struct Payload {
     pub id: u32,
     pub stream: u32,
@@ -106,6 +108,10 @@ pub fn fill_cols(id: u32, cols: &mut [Utf32String]) {
 }
 
 pub fn verify_payload(item: &nucleo::Item<'_, Payload>, ncols: usize) -> Result<(u32, u32), String> {
+    let addr = item.data as *const Payload as usize;
+    if addr % std::mem::align_of::<Payload>() != 0 {
+        return Err(format!("item reference {addr:#x} is not aligned to {}", std::mem::align_of::<Payload>()));
+    }
     let id = item.data.id;
     if item.data.canary != canary(id) {
         return Err(format!("payload canary invalid ({:#x})", item.data.canary));
